@@ -771,8 +771,21 @@ func pureFn(i int, v any) any {
 
 // sameMapped: two Map results hold the same thing slot by slot: equal scalars, the identical passed-through container, or
 // (for containers the library created from a native result) distinct containers with the same content.
-func sameMapped(a, b any) bool {
+func sameMapped(a, b any, given ...any) bool {
 	ta, tb := top(a), top(b)
+	// given: the containers the receiver held (what a function can pass through): such a container in one result is the
+	// identical one in the other; only containers the library made from native results are compared by their content
+	passedThrough := func(x any) bool {
+		for _, g := range given {
+			switch g.(type) {
+			case at.List, at.Object:
+				if sameValue(g, x) {
+					return true
+				}
+			}
+		}
+		return false
+	}
 	slot := func(x, y any) bool {
 		if eqSlot(x, y) {
 			return true
@@ -781,6 +794,9 @@ func sameMapped(a, b any) bool {
 		case at.List, at.Object:
 			switch y.(type) {
 			case at.List, at.Object:
+				if passedThrough(x) || passedThrough(y) {
+					return false
+				}
 				return stringCanon(x) == stringCanon(y)
 			}
 		}
@@ -840,7 +856,7 @@ func c15Map(c *fw.Ctx, r *rng.R, ac *asyncCase, onList bool) {
 			if calls != int64(ac.n) {
 				c.Violate("mapasync-not-exactly-once", in(), fmt.Sprintf("%d calls", ac.n), fmt.Sprintf("%d calls", calls))
 			}
-			if !sameMapped(seq, par) {
+			if !sameMapped(seq, par, vals...) {
 				c.Violate("mapasync-differs-from-map", in(), stringCanon(seq), stringCanon(par))
 			}
 			if !sameTop(before, top(l)) {
@@ -857,7 +873,7 @@ func c15Map(c *fw.Ctx, r *rng.R, ac *asyncCase, onList bool) {
 				c.Count("async_calls_on_structures_that_redefine_get")
 				seqM := ml.Map(func(i int, v any) any { return pureFn(i, v) })
 				parM := ml.MapAsync(func(i int, v any) any { return pureFn(i, v) })
-				if !sameMapped(seqM, parM) {
+				if !sameMapped(seqM, parM, vals...) {
 					c.Violate("mapasync-differs-from-map", in()+"\nthe receiver is a derived structure whose type redefines Get", stringCanon(seqM), stringCanon(parM))
 				}
 				var mu sync.Mutex
@@ -894,7 +910,7 @@ func c15Map(c *fw.Ctx, r *rng.R, ac *asyncCase, onList bool) {
 			if calls != int64(ac.n) {
 				c.Violate("mapasync-not-exactly-once", in(), fmt.Sprintf("%d calls", ac.n), fmt.Sprintf("%d calls", calls))
 			}
-			if !sameMapped(seq, par) {
+			if !sameMapped(seq, par, vals...) {
 				c.Violate("mapasync-differs-from-map", in(), stringCanon(seq), stringCanon(par))
 			}
 			if r.Chance(1, 4) {
@@ -903,7 +919,7 @@ func c15Map(c *fw.Ctx, r *rng.R, ac *asyncCase, onList bool) {
 				c.Count("async_calls_on_structures_that_redefine_get")
 				seqM := mo.Map(func(k string, v any) any { return pureFn(pos[k], v) })
 				parM := mo.MapAsync(func(k string, v any) any { return pureFn(pos[k], v) })
-				if !sameMapped(seqM, parM) {
+				if !sameMapped(seqM, parM, vals...) {
 					c.Violate("mapasync-differs-from-map", in()+"\nthe receiver is a derived structure whose type redefines Get", stringCanon(seqM), stringCanon(parM))
 				}
 			}
